@@ -2,9 +2,10 @@ SPECIFICATION Spec
 CONSTANTS
   Guids = {"g1", "g2"}
   RuleIds = {"r1", "r2"}
+  Contents = {"c1"}
   Versions = {"1.0", "2.0"}
   ModeOf <- MCModeOf
-  RulesKeyedOnIdOnly = FALSE
+  RulesKey = "item"
   IdsIdentifyContent = TRUE
   InitScenarios = {"fresh", "haskey"}
   InitDocs <- DocsSmall
